@@ -107,8 +107,36 @@ def gen_flat(seed):
     for _ in range(r.choice([0, 0, 0, 1, 2])):
         a, b = r.sample(nets, 2)
         ad['conns'].append([list(a), list(b)])
+    # a wide .names (more than ten inputs, so that in_10.. exist beside in_1, in_2), drawn from a generator of its own so
+    # that the designs above stay what they were for a given seed
+    rw = random.Random('flat-wide:%s' % seed)
+    if rw.random() < 0.12:
+        k = rw.randint(11, 13)
+        pool = [x for x in nets]
+        rw.shuffle(pool)
+        ins = pool[:k]
+        while len(ins) < k:
+            x = (nm(rw, used), None)
+            nets.append(x)
+            ins.append(x)
+        out = (nm(rw, used), None)
+        nets.append(out)
+        ad['instances'].append({'kind': 'names', 'cname': nm(rw, used) if rw.random() < 0.7 else None, 'attr': {}, 'param': {},
+                                'inputs': [list(x) for x in ins], 'output': list(out),
+                                'covers': [''.join(rw.choice('01-') for _ in range(k)) + ' 1' for _ in range(rw.randint(1, 2))]})
     ad['nets'] = [list(x) for x in nets]
     return ad
+
+
+def corner_ads():
+    """fixed corner designs that run on every invocation (name, flat abstract design)"""
+    k = 13
+    ins = ['i%d' % j for j in range(k)]
+    wide = {'name': 'wide', 'flavor': 'eblif', 'ports': [{'name': n, 'direction': 'IN', 'width': 1} for n in ins] + [{'name': 'o', 'direction': 'OUT', 'width': 1}],
+            'models': [], 'conns': [], 'nets': [[n, None] for n in ins] + [['o', None]],
+            'instances': [{'kind': 'names', 'cname': 'wide_and', 'attr': {}, 'param': {}, 'inputs': [[n, None] for n in ins], 'output': ['o', None],
+                           'covers': ['1' * k + ' 1', '0-1' + '-' * (k - 3) + ' 1']}]}
+    return [('names-with-13-inputs', wide)]
 
 
 def features(ad):
